@@ -144,10 +144,16 @@ Qed.
 (* ---------- the registers a flat program has declared so far ---------- *)
 Record renv := mkEnv { e_q : list (string * Z); e_c : list (string * Z); e_inc : list string }.
 
+(* the gate names the operation tables lower to themselves: (number of parameters, number of qubits) *)
+Definition self_basis : list (string * (nat * nat)) :=
+  [("id", (0, 1)); ("h", (0, 1)); ("x", (0, 1)); ("y", (0, 1)); ("z", (0, 1)); ("s", (0, 1)); ("t", (0, 1));
+   ("sdg", (0, 1)); ("tdg", (0, 1)); ("sx", (0, 1)); ("rx", (1, 1)); ("ry", (1, 1)); ("rz", (1, 1));
+   ("cx", (0, 2)); ("cz", (0, 2)); ("swap", (0, 2)); ("ccx", (0, 3)); ("c4x", (0, 5))]%nat.
+
 Record Regs (env : renv) (s : st) : Prop := {
   R_q : qreg_sizes s = e_q env;
   R_c : creg_sizes s = e_c env;
-  R_gates : gates s = [];
+  R_gates : forall name np k, assoc name self_basis = Some (np, k) -> smemk name (gates s) = false;   (* no definition shadows a basis gate *)
   R_fn : fn_sizes s = [];
   R_lvq : forall r n, sget r (e_q env) = Some n -> name_in_levels s r = true;
   R_lvc : forall r n, sget r (e_c env) = Some n -> name_in_levels s r = true;
@@ -159,6 +165,7 @@ Lemma Regs_DE env s s' : Regs env s -> DE s s' -> Regs env s'.
 Proof.
   intros [Rq Rc Rg Rf Lq Lc Hq Hc] [E Dq Dc]. core_eq E s s'.
   split; try congruence.
+  - intros name np k H. rewrite <- G3, F3. eauto.
   - intros r n H. specialize (Lq r n H). unfold name_in_levels in *. congruence.
   - intros r n H. specialize (Lc r n H). unfold name_in_levels in *. congruence.
   - intros r n i H Hi. apply Dq. eauto.
@@ -250,11 +257,6 @@ Proof.
 Qed.
 
 (* ---------- the gates the operation tables lower to themselves ---------- *)
-Definition self_basis : list (string * (nat * nat)) :=
-  [("id", (0, 1)); ("h", (0, 1)); ("x", (0, 1)); ("y", (0, 1)); ("z", (0, 1)); ("s", (0, 1)); ("t", (0, 1));
-   ("sdg", (0, 1)); ("tdg", (0, 1)); ("sx", (0, 1)); ("rx", (1, 1)); ("ry", (1, 1)); ("rz", (1, 1));
-   ("cx", (0, 2)); ("cz", (0, 2)); ("swap", (0, 2)); ("ccx", (0, 3)); ("c4x", (0, 5))]%nat.
-
 Ltac len_destruct :=
   repeat match goal with
          | H : List.length ?l = S _ |- _ => destruct l; [discriminate H|cbn [List.length] in H; apply eq_add_S in H]
@@ -506,7 +508,7 @@ Proof.
   rewrite (bind_eq _ _ s (if check_only then [] else [SGate [] name (map ELit vs) (map qarg_of bs)]) s1).
   2:{ rewrite (bind_eq _ _ s (if check_only then [] else [SGate [] name (map ELit vs) (map qarg_of bs)]) s1).
       - rewrite (bind_eq _ _ s1 [] s1 eq_refl). unfold ret. now rewrite app_nil_r.
-      - rewrite (bind_eq _ _ s s s eq_refl). cbn [smem existsb]. rewrite (R_gates _ _ R). exact Eb. }
+      - rewrite (bind_eq _ _ s s s eq_refl). cbn [smem existsb]. rewrite (R_gates _ _ R name np k Hn). exact Eb. }
   exists s1. split; [unfold emit, ret; destruct check_only; reflexivity|]. split; [exact D1|].
   cbn [ev_of]. now rewrite mapM_lit_bit_of.
 Qed.
